@@ -1105,6 +1105,12 @@ def _jit_depth(f):
     return d, f
 
 
+def _eqv(got, want, rtol=1e-12):
+    """shape-safe comparison (a wrong shape is a wrong value, never a harness exception)"""
+    g, w = np.asarray(got), np.asarray(want)
+    return g.shape == w.shape and bool(np.allclose(g, w, rtol=rtol))
+
+
 def _jit_case(ctx, model, variant, jit_opt, ops):
     import jax.numpy as jnp
     from scico import linop
@@ -1149,16 +1155,19 @@ def _jit_case(ctx, model, variant, jit_opt, ops):
     y = jnp.asarray([2.0, 1.0, -1.0])
     states, vals_ok = [state()], True
     for o in ops:
-        if o == "jit":
-            A.jit()
-        elif o == "call":
-            vals_ok &= bool(np.allclose(np.asarray(A(x)), M @ np.asarray(x), rtol=1e-12))
-        elif o == "adj":
-            vals_ok &= bool(np.allclose(np.asarray(A.adj(y)), M.T @ np.asarray(y), rtol=1e-12))
-        elif o == "gram":
-            vals_ok &= bool(np.allclose(np.asarray(A.gram(x)), M.T @ (M @ np.asarray(x)), rtol=1e-12))
-        else:
-            A.gram_op  # noqa: B018
+        try:
+            if o == "jit":
+                A.jit()
+            elif o == "call":
+                vals_ok &= _eqv(A(x), M @ np.asarray(x))
+            elif o == "adj":
+                vals_ok &= _eqv(A.adj(y), M.T @ np.asarray(y))
+            elif o == "gram":
+                vals_ok &= _eqv(A.gram(x), M.T @ (M @ np.asarray(x)))
+            else:
+                A.gram_op  # noqa: B018
+        except Exception:  # noqa: BLE001  (a valid call that raises is a wrong value)
+            vals_ok = False
         states.append(state())
     m = model.call("jit", variant="plain" if variant == "ownAdj" else variant, jit=bool(jit_opt), ops=ops, own=(variant == "ownAdj"))
     case = {"kind": "jit", "variant": variant, "jit": jit_opt, "ops": ops}
@@ -1169,8 +1178,8 @@ def _jit_case(ctx, model, variant, jit_opt, ops):
         ctx.disagree("cache.jit.slots", {**case, "at": k}, states[k], m[k])
         return
     if not vals_ok:
-        ctx.disagree("cache.jit.value", case, "a value differs from the dense matrix", "M x / M^T y / M^T M x",
-                     oracle=lambda c: {"case": c, "what": "operator value depends on the jit history"})
+        ctx.disagree("cache.jit.value", case, "a value differs from the dense matrix (or the call raised)", "M x / M^T y / M^T M x",
+                     oracle=lambda c: {"case": c, "what": "operator value after this history of jit() / call / adj / gram differs from the dense matrix"})
 
 
 def _corr_jit(ctx, model):
@@ -1839,9 +1848,104 @@ def findings(ctx, model):
                           "BBStepSize used with one PGM, then given to a second PGM: first step differs from a fresh BBStepSize")
 
 
+def _targeted(ctx, changed):
+    """panels that exercise exactly the functions whose pinned source changed; each evaluates the PROPERTY on the implementation"""
+    import jax
+    import jax.numpy as jnp
+
+    ctx.extra["search_targets"] = changed
+    if any(c.startswith("TVNorm") for c in changed):
+        for cls_name in ("AnisotropicTVNorm", "IsotropicTVNorm"):
+            for circ in (True, False):
+                for ops in ([("prox", [4], "float64"), ("prox", [4, 6], "float64"), ("call", [4, 6], "float64"), ("prox", [4], "float64")],
+                            [("call", [4], "float32"), ("call", [4], "float64"), ("prox", [4], "float32"), ("prox", [4], "float64"), ("call", [4], "float32")],
+                            [("prox", [4, 6], "float32"), ("prox", [6, 4], "float32"), ("prox", [4, 6], "float32")]):
+                    ctx.count("search:targeted:tv")
+                    r = _oracle_tv({"kind": "tv", "cls": cls_name, "circ": circ, "pre": None, "ops": [{"k": k, "shape": sh, "dt": dt} for k, sh, dt in ops]})
+                    if r is not None:
+                        return r
+    if any(c.startswith(("Loss.", "Functional.")) for c in changed):
+        seqs = [[{"k": "new", "s": 2.0}, {"k": "mul", "i": 0, "c": 3.0}], [{"k": "new", "s": 2.0}, {"k": "div", "i": 0, "c": 4.0}],
+                [{"k": "new", "s": 2.0}, {"k": "rmul", "i": 0, "c": 0.5}, {"k": "set", "i": 1, "s": 5.0}],
+                [{"k": "new", "s": 2.0}, {"k": "mul", "i": 0, "c": 3.0}, {"k": "set", "i": 0, "s": 0.25}, {"k": "div", "i": 1, "c": 2.0}]]
+        for cls in ("SquaredL2Loss(Diag)", "SquaredL2Loss(Matrix)", "PoissonLoss"):
+            for seq in seqs:
+                ctx.count("search:targeted:loss")
+                r = _oracle_loss({"kind": "loss", "cls": cls, "ops": seq, "seed": 11})
+                if r is not None:
+                    return r
+    if any(c.endswith("internal_init") for c in changed):
+        for nm in ("admm:Linear", "admm:Matrix", "pgm:PGMStepSize:plain", "pgm:BBStepSize:plain", "pgm:LineSearchStepSize:acc"):
+            ctx.count("search:targeted:helper")
+            try:
+                a, b = _reuse_run(nm, 1)
+            except Exception as e:  # noqa: BLE001
+                return {"helper": nm, "raised": repr(e)[:200], "what": "an optimiser built with a previously used helper object raises"}
+            if any(not common.allclose(x, y, rtol=1e-7) for x, y in zip(a, b)):
+                return {"helper": nm, "with_reused_helper": [v.tolist() for v in a], "with_fresh_helper": [v.tolist() for v in b],
+                        "what": "a helper object attached to a second optimiser does not behave like a fresh one"}
+    if "_add_seed.fun_alt" in changed:
+        import scico.random as sr
+
+        key = jax.random.PRNGKey(12345)
+        for fn in ("normal", "uniform"):
+            jf = getattr(jax.random, fn)
+            for form, args, kw, k_eff in (("kw_key", [(3,)], {"key": key}, key), ("kw_seed", [(3,)], {"seed": 7}, jax.random.PRNGKey(7)),
+                                          ("none", [(3,)], {}, jax.random.PRNGKey(0)), ("pos_key", [(3,), np.float32, key], {}, key)):
+                ctx.count("search:targeted:rng")
+                try:
+                    res, rk = getattr(sr, fn)(*args, **kw)
+                    res2, _ = getattr(sr, fn)(*args, **kw)
+                except Exception as e:  # noqa: BLE001
+                    return {"function": fn, "form": form, "raised": repr(e)[:200]}
+                if not np.array_equal(np.asarray(res), np.asarray(jf(k_eff, (3,), np.float32))) or not np.array_equal(np.asarray(rk), np.asarray(jax.random.split(k_eff, 2)[0])) \
+                        or not np.array_equal(np.asarray(res), np.asarray(res2)):
+                    return {"function": fn, "form": form, "what": "result / returned key is not the documented function of (shape, dtype, key | seed), or two identical calls differ"}
+        try:
+            sr.normal((3,), key=key, seed=1)
+            return {"what": "key and seed given together are accepted"}
+        except ValueError:
+            pass
+    if any(c.startswith(("LinearOperator.", "Operator.jit", "MatrixOperator.")) for c in changed):
+        from scico import linop
+
+        M = np.array([[1.0, 2.0, 0.0, -1.0], [0.5, 0.0, 3.0, 1.0], [2.0, -1.0, 1.0, 0.0]])
+        Mj = jnp.asarray(M)
+        x, y = jnp.asarray([1.0, -2.0, 0.5, 3.0]), jnp.asarray([2.0, 1.0, -1.0])
+        mks = {"plain": lambda: linop.LinearOperator(input_shape=(4,), output_shape=(3,), eval_fn=lambda v: Mj @ v, input_dtype=np.float64),
+               "adjFn": lambda: linop.LinearOperator(input_shape=(4,), output_shape=(3,), eval_fn=lambda v: Mj @ v, adj_fn=lambda w: Mj.T @ w, input_dtype=np.float64),
+               "matrix": lambda: linop.MatrixOperator(Mj)}
+        for vname, mk in mks.items():
+            for ops in (["call", "adj", "gram"], ["jit", "call", "adj", "gram"], ["gram", "jit", "adj", "jit", "call"], ["adj", "jit", "gram"]):
+                ctx.count("search:targeted:linop")
+                A = mk()
+                for o in ops:
+                    try:
+                        if o == "jit":
+                            A.jit()
+                            continue
+                        got, want = {"call": (lambda: A(x), M @ np.asarray(x)), "adj": (lambda: A.adj(y), M.T @ np.asarray(y)),
+                                     "gram": (lambda: A.gram(x), M.T @ (M @ np.asarray(x)))}[o]
+                        g = np.asarray(got())
+                    except Exception as e:  # noqa: BLE001
+                        return {"operator": vname, "history": ops, "at": o, "raised": repr(e)[:200]}
+                    if not _eqv(g, want):
+                        return {"operator": vname, "history": ops, "at": o, "value": g.tolist(), "dense_matrix_value": want.tolist(),
+                                "what": "value of the operator after this jit / call history differs from the dense matrix"}
+    return None
+
+
 def search(ctx, model, why):
-    """failing-input search on the implementation only: TV histories with many same-shape/other-dtype switches"""
+    """failing-input search on the implementation only; after a broken generated obligation the functions whose pinned source changed
+    are exercised first (targeted panels), then TV / loss histories at random"""
     common.setup_scico()
+    if why and "CacheTables" in str(why.get("module", "")):
+        import cache_translate
+
+        changed = cache_translate.changed_rows(common.REPO, cache_translate.PINNED, common.VERIF / "lean" / "Scico" / "Model" / "Cache.lean")
+        r = _targeted(ctx, changed)
+        if r is not None:
+            return r
     dts = ["float32", "float64", "complex64"]
     for _ in range(ctx.n(4, 25)):
         shape = [[4], [4, 6], [5]][int(ctx.rng.integers(0, 3))]
